@@ -5,7 +5,7 @@ package main
 
 import "fmt"
 
-var allPopKinds = []string{"tampered", "unsigned", "foreign", "other-step-key", "earlier-step-key", "earlier-step-key", "forged-keyid", "extra-sigs", "dup-infix", "keyid-variant", "keyid-variant", "wrong-name-len", "garbage", "bad-sig-encoding", "corrupt-sig", "cert", "cert"}
+var allPopKinds = []string{"tampered", "unsigned", "foreign", "other-step-key", "earlier-step-key", "earlier-step-key", "forged-keyid", "extra-sigs", "dup-infix", "keyid-variant", "keyid-variant", "wrong-name-len", "garbage", "bad-sig-encoding", "corrupt-sig", "cert", "cert", "cert"}
 
 var alterKinds = []string{"mutate-field", "mutate-field", "mutate-field", "drop-sig", "reorder-sigs", "dup-sig", "corrupt-sig", "swap-keyids", "foreign-verifier", "empty-keyset", "wrong-key", "verifier-subset", "signed-by-others-only", "verifier-keytype", "verifier-scheme"}
 
